@@ -30,6 +30,8 @@ def check(ctx):
     ctx.rule("T-gen", "a closed line/leader/chunk generator is never resumed (interim 100 Continue, chunk loops)")
     ctx.rule("D-bakey", "bytearray slices of the receive buffer are not used as mapping keys (chunk extensions, trailers)")
     ctx.floor("T-gen:sites", _http.generator_typestate(ctx, "T-gen", scope), 8)
+    ctx.rule("T-resume", "after a wait (yield None) the parser generator that is resumed is the one that waited, never a fresh one")
+    ctx.floor("T-resume:sites", _http.generator_resume(ctx, "T-resume", scope), 8)
     ctx.floor("D-bakey:keys", _http.bytearray_keys(ctx, "D-bakey", scope), 2)
     _http.fixed_arity_unpacks(ctx, "D-unpack", scope)
     pl = ctx.fn("aio.http.httping", "parseLeader")
